@@ -24,7 +24,7 @@ RULE = ('histories of 3-14 operations (register on one of 3 lines with distingui
 ASSUMPTIONS = ['listener updates are applied synchronously (a synchronous task handler is set through the public '
                'set_task_handler), so each comparison happens at quiescence; asynchrony is C12']
 REQUIRE = {'operations_checked': 4000, 'unregister_shared_location': 200, 'double_unregister': 200,
-           'service_updates': 300, 'method_registrations': 150}
+           'service_updates': 300, 'method_registrations': 150, 'operations_whose_updates_ran_late': 150}
 
 HOST = '''"""c13 probe"""
 
@@ -63,7 +63,8 @@ def case_hist(seed, out, spec, wd):
                                    tracepoints=TracepointConfigService()))
     except TypeError:
         agent = Deep(ConfigService({'SERVICE_URL': '127.0.0.1:1', 'SERVICE_SECURE': 'False'}))
-    agent.config.set_task_handler(SyncHandler())
+    handler = LaggingHandler()
+    agent.config.set_task_handler(handler)
     rig = Rig(agent=agent, host_dir=wd, plugins=[plugins.RecLogger(), plugins.RecMetrics()])
     nops = r.randrange(3, 15)
     handles = []     # (mark, handle, line)
@@ -95,8 +96,15 @@ def case_hist(seed, out, spec, wd):
                 acted.add(payload['msg'][7:])
         return acted, res, exc
 
+    batch_left = 0
     for k in range(nops):
         c = r.randrange(10)
+        if handler.held is None and k + 1 < nops and r.chance(0.25):
+            # the background workers are busy: the updates of this operation and the next one run only afterwards (each
+            # then sees the state both operations left behind)
+            handler.held = []
+            batch_left = 2
+            out.count('operations_whose_updates_ran_late')
         try:
             if c <= 3 or not handles:
                 counter[0] += 1
@@ -169,6 +177,15 @@ def case_hist(seed, out, spec, wd):
             out.violation('registration:operation-raised', 'operation %s raised %r' % (short(ops[-1:] or c), e),
                           {'ops': ops, 'trace': traceback.format_exc()[-400:]}, replay)
             break
+        if handler.held is not None:
+            batch_left -= 1
+            if batch_left > 0:
+                continue
+            try:
+                handler.release()
+            except BaseException as e:  # noqa
+                out.violation('registration:update-raised', 'a background update raised %r' % (e,), {'ops': ops}, replay)
+                break
         acted, res, exc = observe()
         want = set(live) | set(service)
         witness = {'ops': ops, 'active_model': sorted(want), 'acted': sorted(acted)}
@@ -203,6 +220,27 @@ def case_hist(seed, out, spec, wd):
         pass
     out.case({'ops': ops}, nontrivial=shared_unreg or any(o[0] == 'service-update' for o in ops),
              sample={'ops': ops[:8], 'operations': len(ops)})
+
+
+class LaggingHandler(SyncHandler):
+    """Runs tasks at once, or - while .held is a list - keeps them and runs them in order at release()."""
+    held = None
+
+    def submit_task(self, task, *args):
+        if self.held is None:
+            return SyncHandler.submit_task(self, task, *args)
+        from concurrent.futures import Future
+        f = Future()
+        self.held.append((f, task, args))
+        return f
+
+    def release(self):
+        held, self.held = self.held, None
+        for f, task, args in held:
+            try:
+                f.set_result(task(*args))
+            except BaseException as e:  # noqa
+                f.set_exception(e)
 
 
 def run_shard(spec, out):
